@@ -48,9 +48,39 @@ def setup():
     fh.write('def known(a=None, b=None):\n  return (a, b)\n\ndef fn(arg=None):\n  return arg\n\ndef g():\n  return "g"\n')
   with open(os.path.join(d, 'c15late.py'), 'w') as fh:      # registers its configurable when it is imported
     fh.write('import gin\n\n@gin.configurable\ndef late_fn(a=None, b=None):\n  return (a, b)\n')
+  with open(os.path.join(d, 'c15raises_ie.py'), 'w') as fh:  # exists, but raises a bare ImportError (its `name` is None)
+    fh.write('raise ImportError("needs a GPU")\n')
+  with open(os.path.join(d, 'c15needs_missing.py'), 'w') as fh:  # exists, imports something that does not
+    fh.write('import no_such_dependency_c15\n')
   sys.path.insert(0, d)
   import atexit
   atexit.register(lambda: shutil.rmtree(d, ignore_errors=True))
+
+
+def run_failing_import_case(case, res):
+  """An import that fails with ImportError although the module exists (it raises one itself, or needs something missing):
+  whether that counts as 'missing' is Gin's call, but the parse either skips exactly that statement or fails with the
+  ImportError after the statements before it -- nothing else."""
+  _, mod, sname = case
+  skip = dict(SKIPS, **{'True': True, 'False': False})[sname]
+  harness.hard_reset()
+  res.case(tuple(case), True)
+  for m in ('c15raises_ie', 'c15needs_missing'):
+    sys.modules.pop(m, None)
+  try:
+    gin.parse_config("c15.known.a = 1\n\nimport %s\nc15.known.b = 2\n" % mod, skip_unknown=skip)
+    out = 'ok'
+  except ImportError:
+    out = 'ImportError'
+  except Exception as e:  # pylint: disable=broad-except
+    out = 'other:%r' % (e,)
+  got = {k: dict(v) for k, v in cfg._CONFIG.items()}
+  want = {'ok': {('', 'c15.known'): {'a': 1, 'b': 2}}, 'ImportError': {('', 'c15.known'): {'a': 1}}}.get(out)
+  res.outcome('failing_import:' + out.split(':')[0])
+  if want is None or got != want or (not skip and out != 'ImportError'):
+    res.violation('failing_import', '%r: outcome %s, config %r' % (case, out, got), case)
+  else:
+    res.w('failing_import_skipped_or_reported')
 
 
 # statement: (text, kind, target selector as written, param(s), value model, names of unknown refs inside)
@@ -411,6 +441,9 @@ def run_late_case(case, res):
 
 
 def gen(tier):
+  for mod in ('c15raises_ie', 'c15needs_missing'):
+    for sname in ('False', 'True', 'list_all', 'tuple_all', 'set_other', 'list_empty'):
+      yield ['failing_import', mod, sname]
   for name in NOT_IMPORTED:
     for sname in list(LATE_SKIPS) + ['False', 'other_list']:
       yield ['notimp', name, sname]
@@ -440,7 +473,9 @@ def run_shard(i, tier):
     if n % NSH != i:
       continue
     try:
-      if c[0] == 'notimp':
+      if c[0] == 'failing_import':
+        run_failing_import_case(c, res)
+      elif c[0] == 'notimp':
         run_not_imported_case(c, res)
       elif c[0] == 'late':
         run_late_case(c, res)
@@ -460,7 +495,9 @@ def run_shard(i, tier):
 
 def replay(c):
   res = core.Result()
-  if c[0] == 'notimp':
+  if c[0] == 'failing_import':
+    run_failing_import_case(c, res)
+  elif c[0] == 'notimp':
     run_not_imported_case(c, res)
   elif c[0] == 'late':
     run_late_case(c, res)
